@@ -26,6 +26,7 @@ type mergeCtx struct {
 }
 
 type mergeCase struct {
+	dec   []int // truth values of the decisions taken inside the call (program order)
 	pc    *Term
 	res   value
 	panic interface{}
@@ -146,6 +147,7 @@ func (i *interpreter) callMerged(run func() value) value {
 			pc = mkAnd(pc, t)
 		}
 		c.pc = pc
+		c.dec = append([]int(nil), ctx.prefix[:ctx.pos]...)
 		c.seq = make(map[string]int, len(p.seq))
 		for a, b := range p.seq {
 			c.seq[a] = b
@@ -174,7 +176,20 @@ func (i *interpreter) callMerged(run func() value) value {
 	// The order in which the cases were found depends on the path's current model; the
 	// decisions below are replayed positionally when the path prefix is re-executed, so
 	// the order must not: sort by path condition.
-	sort.SliceStable(cases, func(a, b int) bool { return cases[a].pc.String() < cases[b].pc.String() })
+	// (truth values of the callee's decisions in program order, "true" first - this does
+	// not depend on the model, and keeps the merged terms in the program's own order)
+	sort.SliceStable(cases, func(a, b int) bool {
+		x, y := cases[a].dec, cases[b].dec
+		for k := 0; k < len(x) && k < len(y); k++ {
+			if x[k] != y[k] {
+				return x[k] > y[k]
+			}
+		}
+		if len(x) != len(y) {
+			return len(x) < len(y)
+		}
+		return cases[a].pc.String() < cases[b].pc.String()
+	})
 	// group by shape
 	type group struct {
 		pc    *Term
